@@ -1,4 +1,5 @@
 import Proofs.TraceJust
+import Proofs.Subset
 /-!
 # C11 — fast check preserves the public API and drops everything else
 
@@ -115,5 +116,71 @@ def demo : World :=
 
 example : (trace demo [0] 100).map (fun s => (s.decls, s.imports)) = some ([(0, 1), (0, 2), (1, 3)], [(0, 3)]) := by
   decide
+
+
+/-! ## the bookkeeping of requests (`NamedSubset`, `Exports`, `ImportedExports`; `DG/Subset.lean`)
+
+The tracer above treats "was this already requested" as a set of processed tasks.  The code keeps,
+per module, a tree of export names with the members wanted of each, merges every new request into
+it and traces only the difference.  These theorems are about that merge. -/
+section Requests
+open DG.Subset
+
+/-- merging a request tree into another: the result covers both, and what the new one covers was
+covered before or is in the difference -/
+theorem tree_merge_complete (a b : Sub) (p : List String) :
+    ((a.covers p = true ∨ b.covers p = true) → (Sub.extend a b).1.covers p = true) ∧
+    (b.covers p = true → a.covers p = true ∨ (Sub.extend a b).2.covers p = true) :=
+  ⟨Sub.extend_keeps a b p, Sub.extend_diff a b p⟩
+
+/-- … and the result claims nothing that was neither covered before nor is in the difference -/
+theorem tree_merge_sound (a b : Sub) (p : List String) (h : (Sub.extend a b).1.covers p = true) :
+    a.covers p = true ∨ (Sub.extend a b).2.covers p = true :=
+  Sub.extend_sound a b p h
+
+/-- the same for a module's record (`*`, `*` with `default`, or a tree) -/
+theorem record_merge_complete (a b : Imp) (p : List String) :
+    ((a.covers p = true ∨ b.covers p = true) → (Imp.add a b).1.covers p = true) ∧
+    (b.covers p = true → a.covers p = true ∨ ∃ d, (Imp.add a b).2 = some d ∧ d.covers p = true) :=
+  ⟨Imp.add_keeps a b p, Imp.add_diff a b p⟩
+
+theorem record_merge_sound (a b : Imp) (p : List String) (h : (Imp.add a b).1.covers p = true) :
+    a.covers p = true ∨ ∃ d, (Imp.add a b).2 = some d ∧ d.covers p = true :=
+  Imp.add_sound a b p h
+
+/-- **no request is ever lost**: for any sequence of requests made of one module, every export
+path some request covers is covered by one of the differences that were handed on for tracing -/
+theorem every_request_is_traced (ts : List Imp) (t : Imp) (p : List String)
+    (hm : t ∈ ts) (hc : t.covers p = true) :
+    ∃ d ∈ (handledRun none ts).2, d.covers p = true := by
+  rcases handledRun_complete ts none t p hm hc with h | h
+  · simp [optCovers] at h
+  · exact h
+
+/-- finding F32 (repaired in /repo): the merge as it was took a partially requested `default` for
+the whole of it when `*` came in.  After `Default.A`, then `*`, the record claimed `Default.B`
+although neither the earlier request nor the difference covers it — a later request for it was
+answered "already handled" and never traced -/
+theorem old_merge_overclaims :
+    let a := Imp.subset (Sub.fromParts ["default", "A"])
+    (Imp.addOld a .star).1.covers ["default", "B"] = true ∧
+    a.covers ["default", "B"] = false ∧
+    (∀ d, (Imp.addOld a .star).2 = some d → d.covers ["default", "B"] = false) ∧
+    (Imp.addOld (Imp.addOld a .star).1 (.subset (Sub.fromParts ["default", "B"]))).2 = none := by
+  refine ⟨?_, ?_, ?_, ?_⟩
+  · simp [Imp.addOld, Sub.fromParts, Sub.addQualified, Sub.get?, Sub.set, Sub.add, Sub.contains, Imp.covers]
+  · simp [Sub.fromParts, Sub.addQualified, Sub.get?, Sub.set, Sub.add, Imp.covers, Sub.covers, Ex.covers]
+  · intro d hd
+    simp [Imp.addOld, Sub.fromParts, Sub.addQualified, Sub.get?, Sub.set, Sub.add, Sub.contains] at hd
+    subst hd
+    simp [Imp.covers]
+  · simp [Imp.addOld, Imp.add, Sub.fromParts, Sub.addQualified, Sub.get?, Sub.set, Sub.add, Sub.contains]
+
+/-- with the repaired merge the same history hands the rest of `default` on -/
+example :
+    (Imp.add (Imp.subset (Sub.fromParts ["default", "A"])) .star).2.map (·.covers ["default", "B"]) = some true := by
+  simp [Imp.add, Sub.fromParts, Sub.addQualified, Sub.get?, Sub.set, Sub.add, Imp.covers]
+
+end Requests
 
 end DG.C11
